@@ -93,4 +93,17 @@ def ScatJ1_bwd(ps, ts):
     return [N(g)]
 
 
-IMPL = {'ScatLayer': ScatLayer, 'ScatLayerj2': ScatLayerj2, 'ScatJ1_bwd': ScatJ1_bwd}
+def ScatJ2_bwd(ps, ts):
+    (rot,) = ps
+    nf = 9 if rot else 6
+    f = ts[:nf]; b = ts[nf]; x = ts[nf + 1]; dz = ts[nf + 2]
+    mod = make_scat2(f, 1, 0, float(np.ravel(b)[0]))
+    xt = T(x).requires_grad_(True)
+    z = mod(xt)
+    if tuple(z.shape) != tuple(dz.shape):
+        raise rt.HarnessSkip('cotangent shape does not match the forward output')
+    (g,) = torch.autograd.grad([z], xt, [T(dz)])
+    return [N(g)]
+
+
+IMPL = {'ScatLayer': ScatLayer, 'ScatLayerj2': ScatLayerj2, 'ScatJ1_bwd': ScatJ1_bwd, 'ScatJ2_bwd': ScatJ2_bwd}
